@@ -338,6 +338,41 @@ def stepReg (st : DriverState) (op : String) (j : Json) : DriverState × Json :=
                   ("mult", Json.bool d.isMult), ("base", Json.bool d.isBase)]))
       | none => (st, errJ .key)
     | none => (st, badJ "unit_info: s")
+  | "unit_def" =>
+    match fStr j "s" with
+    | some s =>
+      match R.units.find? s with
+      | some d =>
+        let convJ : Json := match d.conv with
+          | .scale sc => Json.mkObj [("kind", "scale"), ("scale", ratJ sc)]
+          | .offset sc o => Json.mkObj [("kind", "offset"), ("scale", ratJ sc), ("offset", ratJ o)]
+          | .log sc b f => Json.mkObj [("kind", "log"), ("scale", ratJ sc), ("logbase", ratJ b), ("logfactor", ratJ f)]
+          | .irrational => Json.mkObj [("kind", "irrational")]
+        (st, okJ (Json.mkObj [("name", Json.str d.name), ("symbol", Json.str d.sym),
+          ("aliases", Json.arr (d.aliases.map Json.str).toArray), ("conv", convJ), ("ref", ucJ d.ref),
+          ("is_base", Json.bool d.isBase)]))
+      | none => (st, errJ .key)
+    | none => (st, badJ "unit_def: s")
+  | "prefix_def" =>
+    match fStr j "s" with
+    | some s =>
+      match R.prefixes.find? s with
+      | some p => (st, okJ (Json.mkObj [("name", Json.str p.name), ("symbol", Json.str p.sym), ("value", ratJ p.value),
+          ("aliases", Json.arr (p.aliases.map Json.str).toArray)]))
+      | none => (st, errJ .key)
+    | none => (st, badJ "prefix_def: s")
+  | "dim_def" =>
+    match fStr j "s" with
+    | some s =>
+      match R.dims.find? s with
+      | some d => (st, okJ (match d.ref with | some r => ucJ r | none => Json.null))
+      | none => (st, errJ .key)
+    | none => (st, badJ "dim_def: s")
+  | "tables" =>
+    (st, okJ (Json.mkObj [("units", Json.arr (R.units.keys.map Json.str).toArray),
+      ("prefixes", Json.arr (R.prefixes.keys.map Json.str).toArray),
+      ("dims", Json.arr (R.dims.keys.map Json.str).toArray),
+      ("base_units", Json.arr (R.baseUnits.map Json.str).toArray)]))
   | "reset" => ({ st with reg := Gen.defaultRegistry }, okJ Json.null)
   | "define" =>
     match field j "def" >>= jUnitDef? with
